@@ -395,7 +395,7 @@ def classify(v):
     return "c15-" + v["clause"]
 
 
-def repro_blockchain(case, batches, locks, hashseed, repo):
+def repro_blockchain(case, batches, locks, hashseed, repo, note=""):
     def kr(k):
         return "bytes.fromhex(%r)" % k.hex() if isinstance(k, bytes) else repr(k)
     lines = ["# PYTHONHASHSEED=%s python3 this.py" % hashseed if case.scheme == "bytes" else "# any PYTHONHASHSEED",
@@ -414,7 +414,10 @@ def repro_blockchain(case, batches, locks, hashseed, repo):
         lines.append("print(bc.add_headers([H(K[i], P[i], W[i]) for i in %r]), [K.index(bc.hash_for_index(i)) for i in range(bc.length())])" % (list(b),))
         if locks and bi < len(locks) and locks[bi]:
             lines.append("bc.lock_to_index(%d); print([K.index(bc.hash_for_index(i)) for i in range(bc.length())])" % locks[bi])
-    lines.append("# parents (index into K, -1 anchor, -2 never delivered): %r" % (list(case.par),))
+    lines.append("# printed: ops, then the reported chain as indices into K.  parents (index into K, -1 anchor, -2 never "
+                 "delivered): %r" % (list(case.par),))
+    if note:
+        lines.append("# observed by the harness: " + note.replace("\n", " "))
     return "\n".join(lines)
 
 
@@ -511,7 +514,7 @@ def run_finder(ChainFinder, case, batches):
     return None, info
 
 
-def repro_finder(case, batches, hashseed, repo):
+def repro_finder(case, batches, hashseed, repo, note=""):
     def kr(k):
         return "bytes.fromhex(%r)" % k.hex() if isinstance(k, bytes) else repr(k)
     lines = ["# PYTHONHASHSEED=%s python3 this.py" % hashseed if case.scheme == "bytes" else "# any PYTHONHASHSEED",
@@ -523,7 +526,9 @@ def repro_finder(case, batches, hashseed, repo):
              "cf = ChainFinder()"]
     for b in batches:
         lines.append("cf.load_nodes([(K[i], P[i]) for i in %r]); print(cf)" % (list(b),))
-    lines.append("# every known node must lie on a tree that reaches its root's missing parent")
+    lines.append("# every leaf's tree must run up to the missing parent of its root")
+    if note:
+        lines.append("# observed by the harness: " + note.replace("\n", " "))
     return "\n".join(lines)
 
 
@@ -543,7 +548,8 @@ class Collector(object):
         self.evaluations += 1
         if nontrivial:
             (self.distinct_sliced if sliced else self.distinct).add(hash(key))   # tuples of ints: seed-independent
-        if sample is not None and len(self.samples) < 2:
+        if sample is not None and nontrivial and len(self.samples) < 2 and len(sample.get("parents", ())) >= 3 \
+                and len(sample.get("batches", ())) >= 2:
             self.samples.append(sample)
 
     def violation(self, fkey, size, what, inputs, repro):
@@ -697,7 +703,8 @@ def _report(col, case, batches, sched, v, opts):
     inputs = "keys=%s hashseed=%s parents=%r weights=%r batches=%r locks=%r: %s at %s" % (
         case.scheme, opts["hashseed"] if case.scheme == "bytes" else "any", list(case.par), list(case.weights),
         batches, sched, v["detail"][:300], v["step"])
-    col.violation(fkey, size, what, inputs, repro_blockchain(case, batches, sched, opts["hashseed"], opts["repo"]))
+    col.violation(fkey, size, what, inputs, repro_blockchain(case, batches, sched, opts["hashseed"], opts["repo"],
+                                                             "%s at %s: %s" % (v["clause"], v["step"], v["detail"][:300])))
 
 
 def worker_finder(opts, col):
@@ -717,7 +724,8 @@ def worker_finder(opts, col):
             inputs = "keys=%s hashseed=%s parents=%r batches=%r: %s at %s" % (
                 scheme, opts["hashseed"] if scheme == "bytes" else "any", list(par), batches, v["detail"][:300], v["step"])
             col.violation(fkey, size, "%s [load_nodes]" % v["clause"], inputs,
-                          repro_finder(case, batches, opts["hashseed"], opts["repo"]))
+                          repro_finder(case, batches, opts["hashseed"], opts["repo"],
+                                       "%s at %s: %s" % (v["clause"], v["step"], v["detail"][:300])))
 
 
 WORKERS = {"tracking": worker_tracking, "locking": worker_locking, "finder": worker_finder}
@@ -850,43 +858,54 @@ if __name__ == "__main__":
 from pyvc.bounded import bounded, Tally  # noqa: E402
 
 
+_SPACE = ("forests: every root hangs off the anchor or off one parent that is never delivered. int keys (1..n, set.pop order = "
+          "ascending key, so all labelled forests = all merge priorities): all labelled forests x all ordered set-partitions "
+          "into batches for n<=4; bytes keys (32-byte digests, anchor 32 zero bytes), repeated under PYTHONHASHSEED in {0,3,11} "
+          "(thorough: 8 seeds): all forest shapes x all permutations x all cuts into consecutive batches for n<=4 (thorough: +n=5 "
+          "shapes x ordered set-partitions per seed, +n=6 shapes x ordered set-partitions each under one of the 8 seeds); every "
+          "placement of one duplicate for n<=3, sampled for n=4; seeded random forests/orders/batchings/duplicates for n=5,6 "
+          "(thorough: up to 7)")
+
+
 @bounded("C15.chain_tracking", props=["C15"],
-         bound="int keys: all labelled forests of <=4 headers (quick; <=5 thorough) x all ordered batchings, +1 duplicate "
-               "for <=3; bytes keys x PYTHONHASHSEEDs: all forest shapes x all permutations x all consecutive batchings; "
-               "weights {1,2}(,3) full for small n, else all-ones + 1 seeded vector; seeded samples up to 6 (7) headers")
+         bound=_SPACE + "; weights: all of {1,2}^n for n<=3 (thorough {1,2,3}^3), else all-ones and/or one seeded vector from "
+                        "{1,2,3}^n; no locking")
 def c15_chain_tracking(opts):
-    t = Tally(rule="a case = (parent function incl. anchor/never-delivered roots, weights, sequence of batches incl. duplicates, "
-                   "key scheme); after EACH add_headers: reported chain is linked from the anchor, made of delivered headers, of "
-                   "maximum total weight; tuple/hash_for_index (also negative), last_block_hash, index_for_hash over all hashes "
-                   "agree; returned ops and callback ops replayed on [] equal the chain. non-trivial = >=2 headers and a non-empty "
-                   "chain at some point. int keys make set.pop order = ascending label, so all labelled forests = all merge "
-                   "orders; bytes keys repeat the space per PYTHONHASHSEED (counted once in distinct)")
+    t = Tally(rule="a case = (parent function, weights, sequence of batches incl. duplicates, key scheme); after EACH add_headers the "
+                   "real BlockChain must report (length/tuple_for_index) a chain of delivered headers linked from the anchor whose "
+                   "total weight equals the maximum over all such chains (independent DFS over the delivered forest); "
+                   "hash_for_index (also -1, -n), last_block_hash, index_for_hash over every hash of the universe (None off-chain) "
+                   "agree with it; ops returned and ops sent to a registered callback, replayed on [] (add only at the end index, "
+                   "remove only the last item), equal the chain. non-trivial = >=2 headers and a non-empty chain at some point. "
+                   "The bytes-keyed space is re-run per PYTHONHASHSEED and counted once in distinct_nontrivial")
     _drive("tracking", opts, t)
-    t.exhaustive = False     # exhaustive for the stated small-n spaces, sampled beyond and sampled over set orders for bytes
+    t.exhaustive = False     # exhaustive over the stated small-n spaces; sampled beyond and over set orders of bytes keys
     return t.result()
 
 
 @bounded("C15.chain_locking", props=["C15"],
-         bound="as chain_tracking with lock_to_index between deliveries: all lock schedules (every gap incl. after the last "
-               "delivery, every admissible index) for <=3 headers incl. one duplicate (thorough: <=4 with int keys); one or two "
-               "seeded schedules per sampled history up to 6 (7) headers")
+         bound="histories as C15.chain_tracking with lock_to_index between deliveries (every gap, also after the last delivery; "
+               "every index in (locked_length, length]): all lock schedules for n<=3 incl. one duplicate (int keys, colliding-int "
+               "keys 3,11,19 and bytes keys x hash seeds); thorough: +n=4 all histories with two seeded schedules; seeded "
+               "schedules on sampled histories up to 6 (7) headers")
 def c15_chain_locking(opts):
-    t = Tally(rule="a case = chain_tracking case + lock schedule with >=1 lock; checks as chain_tracking after each delivery and each "
-                   "lock, plus: lock_to_index leaves the reported chain unchanged, locked_length/unlocked_length match, the locked "
-                   "prefix is never reorganised away and the rest is heaviest among chains extending it")
+    t = Tally(rule="a case = chain_tracking case + a lock schedule with >=1 lock; all chain_tracking checks after each delivery AND "
+                   "after each lock, plus: lock_to_index leaves the reported chain unchanged, locked_length/unlocked_length match, "
+                   "the locked prefix stays a prefix for ever and the remainder is heaviest among delivered chains extending it "
+                   "(also when already locked headers are delivered again)")
     _drive("locking", opts, t)
     t.exhaustive = False
     return t.result()
 
 
 @bounded("C15.chainfinder_view", props=["C15"],
-         bound="ChainFinder alone over the chain_tracking histories (unit weights): int keys all labelled forests <=4 (5) x all "
-               "ordered batchings; bytes keys x PYTHONHASHSEEDs all shapes x permutations x batchings; samples up to 6 (7)")
+         bound="ChainFinder alone over the C15.chain_tracking histories (no weights; thorough without the n=6 slice)")
 def c15_chainfinder_view(opts):
-    t = Tally(rule="after EACH load_nodes: trees_from_bottom == {leaf: path leaf..root,missing-parent} for every leaf of the forest "
+    t = Tally(rule="after EACH load_nodes: trees_from_bottom == {leaf: [leaf..root, missing parent]} for every leaf of the forest "
                    "delivered so far, descendents_by_top == {missing parent: its leaves}, missing_parents, parent_lookup, "
                    "all_chains_ending_at(top) for every top (+anchor, +never-delivered), maximum_path(h) for every node, "
-                   "find_ancestral_path(h1,h2) for every ordered pair == (h1..lca, h2..lca) or ([],[]) across trees")
+                   "find_ancestral_path(h1,h2) for every ordered pair == (h1..lca, h2..lca) or ([],[]) across trees; "
+                   "non-trivial = >=2 headers")
     _drive("finder", opts, t)
     t.exhaustive = False
     return t.result()
